@@ -24,6 +24,11 @@ class TranslatorError(Exception):
 TOK = re.compile(r"""\s*(?:(?P<str>"(?:[^"\\]|\\.)*")|(?P<id>[A-Za-z_][A-Za-z_0-9]*)|(?P<num>\d+)|(?P<op>->|\+\+|--|&&|\|\||==|!=|<=|>=|[-+*/%<>=!(){}\[\];,.:?&|]))""")
 
 FUNCS = ["mj_forwardSkip", "mj_forward", "mj_step", "mj_step1", "mj_step2"]
+# functions of src/engine/engine_inverse.c; in these, statements outside the driver language
+# (declarations, loops, calls with general arguments, general assignments) are kept as OPAQUE
+# calls named by their normalised token text: an uninterpreted function of the whole state
+INV_FUNCS = ["mj_inverseSkip", "mj_inverse"]
+TYPEWORDS = ("int", "mjtNum", "const", "double", "float", "size_t", "mjtByte", "unsigned", "char")
 
 
 def strip_comments(text):
@@ -34,7 +39,8 @@ def strip_comments(text):
 
 
 class P:
-    def __init__(self, text, fname, line0):
+    def __init__(self, text, fname, line0, opaque_ok=False):
+        self.opaque_ok = opaque_ok
         self.fname, self.toks = fname, []
         pos, line = 0, line0
         while pos < len(text):
@@ -141,10 +147,10 @@ class P:
 
     def stmt(self):
         t = self.peek()
-        if t == "TM_START":
+        if t in ("TM_START", "TM_START1", "TM_RESTART"):
             self.next(); self.expect(";")
             return []
-        if t == "TM_END":
+        if t in ("TM_END", "TM_END1", "TM_ADD"):
             self.next(); self.expect("("); self.until((")",)); self.expect(")"); self.expect(";")
             return []
         if t == "if":
@@ -165,14 +171,23 @@ class P:
         if t == "d" and "".join(x[0] for x in self.toks[self.i:self.i + 10]) == "d->timer[mjTIMER_STEP].number--;":
             self.i += 10
             return []
-        if t in ("for", "while", "do", "return", "goto", "int", "mjtNum", "const", "double", "break", "continue"):
+        if self.opaque_ok and t == "for":
+            return [("call", self.opaque_for(), [])]
+        if self.opaque_ok and t in TYPEWORDS:
+            toks = self.until((";",), depth_aware=True)
+            self.expect(";")
+            return [("call", "@" + " ".join(toks), [])]
+        if t in ("for", "while", "do", "return", "goto", "break", "continue") + TYPEWORDS:
             self.fail("statement kind %r is outside the driver language" % t)
         # call or assignment
+        start = self.i
         toks = self.until((";", "="))
         if self.peek() == ";":
             self.next()
             txt = "".join(toks)
             m = re.fullmatch(r"([A-Za-z_]\w*)\(m,d((?:,[A-Za-z_0-9]+)*)\)", txt)
+            if not m and self.opaque_ok and re.fullmatch(r"[A-Za-z_]\w*\(.*\)", txt):
+                return [("call", "@" + txt, [])]
             if not m:
                 self.fail("unsupported expression statement %r" % txt)
             args = [a for a in m.group(2).split(",") if a]
@@ -189,12 +204,42 @@ class P:
                 self.expect(";")
                 rv = "".join(toks)
                 break
+        simple = all(re.fullmatch(r"d->[A-Za-z_]\w*(\[\d+\])?", lv) for lv in lvs) and re.fullmatch(r"-?\d+", rv)
+        if not simple and self.opaque_ok:
+            return [("call", "@" + "=".join(lvs + [rv]), [])]
         for lv in lvs:
             if not re.fullmatch(r"d->[A-Za-z_]\w*(\[\d+\])?", lv):
                 self.fail("unsupported assignment target %r" % lv)
         if not re.fullmatch(r"-?\d+", rv):
             self.fail("unsupported assigned value %r" % rv)
         return [("assign", lv, rv) for lv in reversed(lvs)]
+
+    def opaque_for(self):
+        """for (...) { ... } or for (...) stmt;  kept as one opaque call named by its token text"""
+        out = [self.next()]
+        self.expect("(")
+        depth = 1
+        out.append("(")
+        while depth:
+            t = self.next()
+            depth += (t == "(") - (t == ")")
+            out.append(t)
+        if self.peek() == "{":
+            depth = 0
+            while True:
+                t = self.next()
+                depth += (t == "{") - (t == "}")
+                out.append(t)
+                if depth == 0:
+                    break
+        else:
+            out += self.until((";",))
+            self.expect(";")
+            out.append(";")
+        txt = " ".join(out)
+        if re.search(r"\b(return|goto|mjERROR|mj_forward\w*|mj_inverse\w*|mj_step\w*)\b", txt):
+            self.fail("loop with control transfer or pipeline calls cannot be opaque")
+        return "@" + txt
 
     def switch(self):
         self.expect("switch"); self.expect("(")
@@ -344,6 +389,18 @@ def translate(repo):
     for fn in FUNCS:
         params, body, line0 = find_function(text, fn, "src/engine/engine_forward.c")
         p = P(body, "src/engine/engine_forward.c", line0)
+        ss = p.block()
+        if p.peek() is not None:
+            p.fail("trailing tokens")
+        out.append("Definition %s_params : list string := [%s]." % (fn, "; ".join(q(x) for x in params)))
+        out.append("Definition %s_body : prog :=\n  %s." % (fn, stmts2v(ss, 2)))
+        out.append("")
+        defs.append(fn)
+    iname = os.path.join(repo, "src/engine/engine_inverse.c")
+    itext = strip_comments(open(iname).read())
+    for fn in INV_FUNCS:
+        params, body, line0 = find_function(itext, fn, "src/engine/engine_inverse.c")
+        p = P(body, "src/engine/engine_inverse.c", line0, opaque_ok=True)
         ss = p.block()
         if p.peek() is not None:
             p.fail("trailing tokens")
